@@ -144,6 +144,7 @@ type State struct {
 	version int // bumped on any externally visible effect
 	wlog    []int // ids of cells written (stores), in order
 	logMark int   // index into log of the most recent loop cut (events before it belong to earlier iterations)
+	gen     map[int]*Term // generalised compound terms (term id -> fresh variable), applied to every later VC
 	schemas []*schema // quantified facts valid on this path (loop invariants, callee postconditions)
 	written map[*Cell]bool
 }
@@ -166,6 +167,12 @@ func (s *State) fork() *State {
 	}
 	for k, v := range s.store {
 		n.store[k] = v
+	}
+	if s.gen != nil {
+		n.gen = make(map[int]*Term, len(s.gen))
+		for k, t := range s.gen {
+			n.gen[k] = t
+		}
 	}
 	if s.written != nil {
 		n.written = map[*Cell]bool{}
